@@ -189,6 +189,32 @@ VH_OP(strips) {
   return "ok " + vh::joinl(out);
 }
 
+// stripsh <modeA> <modeB> <geometry A> -- <geometry B>: ONE MeshStripifier object generates strips for A (mode A),
+// then for B (mode B); the answer for B is held to the same standard as a fresh object's: output as `strips <modeB> B`
+VH_OP(stripsh) {
+  if (a.size() < 4) return "invalid-input";
+  size_t sep = 3;
+  while (sep < a.size() && a[sep] != "--") ++sep;
+  if (sep >= a.size()) return "invalid-input";
+  Parsed ga = parse(a, 3);
+  vh::Args rest(a.begin() + sep + 1, a.end());
+  Parsed gb = parse(rest, 0);
+  if (!ga.ok || !ga.mesh || !gb.ok || !gb.mesh) return "invalid-input";
+  MeshStripifier st;
+  std::vector<uint32_t> scratch, out;
+  if (a[1] == "1")
+    (void)st.GenerateTriangleStripsWithPrimitiveRestart(*ga.mesh, uint32_t(0xFFFFFFFFu), std::back_inserter(scratch));
+  else
+    (void)st.GenerateTriangleStripsWithDegenerateTriangles(*ga.mesh, std::back_inserter(scratch));
+  bool ok;
+  if (a[2] == "1")
+    ok = st.GenerateTriangleStripsWithPrimitiveRestart(*gb.mesh, uint32_t(0xFFFFFFFFu), std::back_inserter(out));
+  else
+    ok = st.GenerateTriangleStripsWithDegenerateTriangles(*gb.mesh, std::back_inserter(out));
+  if (!ok) return "fail";
+  return "ok " + vh::joinl(out);
+}
+
 VH_OP(buildmesh) {
   if (a.size() < 3) return "invalid-input";
   const int nf = atoi(a[1].c_str()), na = atoi(a[2].c_str());
